@@ -117,7 +117,7 @@ add("C20", "TestC20", "exploration",
     "Trusted: legacy writers for the legacy layouts.", "snapshot + differential property-based testing (rapid)", "DESIGN.md §4 C20")
 
 add("C12", "TestC12", "exploration",
-    dict(cases=24000, shards=8, extra=[dict(test="TestC12Regular", shards=4)]), dict(cases=600000, shards=16, timeout_s=3000, extra=[dict(test="TestC12Regular", shards=8, timeout_s=3000)]),
+    dict(cases=24000, shards=8, extra=[dict(test="TestC12Regular", shards=4), dict(test="TestC12Million", shards=1)]), dict(cases=600000, shards=16, timeout_s=3000, extra=[dict(test="TestC12Regular", shards=8, timeout_s=3000), dict(test="TestC12Million", shards=1, timeout_s=3000)]),
     "sorted record sets (keys K1..K7/Krand with arbitrary bytes, distinct payloads), either one strictly increasing offset per key (Get) or block offsets with block size 2..64 and drawn gaps (RangeGet); reader = map offset -> block that returns a record only when the key is in that block; queries = all keys and Q(keys); non-trivial = the reader had to reject at least one lookup (the underlying trie returned an offset for an absent key)",
     "Generated-input search against an exact map model: every indexed key returns its own record, every other string is not found.",
     "Trusted: the verifying reader written in the harness.", RAPID.replace("sorted-map", "map"), "DESIGN.md §4 C12")
